@@ -117,6 +117,12 @@ def run(ctx):
                         dphi = (dphi + mp.pi) % (2 * mp.pi) - mp.pi
                         if abs(abs(dphi) - mp.pi) > 1e-6:
                             cmp(site + ":deltaphi", v.deltaphi(w), dphi, 1, inp)
+                        # general linear transform of THIS dimension, in every coordinate system: the documented matrix-vector product
+                        keys = ["x", "y", "z", "t"][:dim]
+                        M = {a_ + b_: rng.uniform(-2, 2) for a_ in keys for b_ in keys}
+                        tr = getattr(v, f"transform{dim}D")(M)
+                        cmp(site + f":transform{dim}D", [getattr(tr, k_) for k_ in keys],
+                            [sum(mp.mpf(M[a_ + b_]) * c[j_] for j_, b_ in enumerate(keys)) for a_ in keys], S * 8, inp, 400)
                         if dim >= 3:
                             z = c[2]
                             mag = mp.sqrt(x * x + y * y + z * z)
